@@ -140,6 +140,14 @@ func run(tr Trace) error {
 			}
 		case "QUERY":
 			rows, err := db.Query(s.Text, fix(s.Args)...)
+			if s.Affected == -2 {
+				// the model rejected the query (unknown column): SQLite must reject it too
+				if err == nil {
+					rows.Close()
+					return fmt.Errorf("statement %d %q: model rejects it, sqlite accepts it", i, s.Text)
+				}
+				continue
+			}
 			if err != nil {
 				return fmt.Errorf("statement %d %q: sqlite error: %v", i, s.Text, err)
 			}
